@@ -15,7 +15,7 @@ def race_reported(rc, text):
 def seq_runner(binary):
     """go_runner for sequential op lines (alloc / pc / wp / adm) through TestVerifRpcSeq."""
     def run(ctx, lines):
-        rc, out, log = run_overlay_test(binary, "TestVerifRpcSeq", lines, ctx.scratch, timeout=600)
+        rc, out, log = run_overlay_test(binary, "TestVerifRpcSeq", lines, ctx.scratch, timeout=300)
         if race_reported(rc, log):
             ctx.violation(f"{ctx.pid}:race:seq", "race detector report in the sequential harness: " + trunc(log[-1500:], 1500),
                           {"log": log[-6000:]})
